@@ -12,6 +12,11 @@ C31  Loop transformations preserve behaviour where they apply.
      ``iteration_number``), or through ``Polyhedron.from_loop_ranges`` which rejects
      non-unit steps (assertion checked).
  R3  every unrolled copy substitutes the loop variable in the whole body.
+ R4  loop fusion renames loop variables *simultaneously*: the substitution of the
+     nest's variables by the fused variables is applied once, with one combined
+     map, outside the loop over the nesting levels.  Applying one substitution per
+     level inside that loop lets an earlier renaming capture a later one
+     (j -> i followed by i -> j turns c(j,i) into c(j,j)).
 Not decided: legality analysis (independence), body re-indexing arithmetic.
 """
 import ast
@@ -134,8 +139,42 @@ def run(ctx):
      ctx.violation('R2', 'Polyhedron.from_loop_ranges:step-assert', pl.relpath, 'the polyhedron construction no longer rejects non-unit steps: '
                    'fusion/interchange would drop strides'))
 
+    # ---- R4
+    ctx.rule('R4', 'do_loop_fusion: SubstituteExpressions(<map>).visit(<body>) for the loop-variable renaming is applied outside the loop '
+                   'over zip(variables, fusion_variables) that fills the map')
+    lf = m.get_function(TL, 'do_loop_fusion')
+    n4 = 0
+    for lp in [x for x in ast.walk(lf.node) if isinstance(x, ast.For) and isinstance(x.iter, ast.Call) and X.call_name_of(x.iter) == 'zip'
+               and 'fusion_variables' in ast.unparse(x.iter) and isinstance(x.target, ast.Tuple) and len(x.target.elts) == 2]:
+        maps = {ast.unparse(c.func.value) for c in ast.walk(lp) if isinstance(c, ast.Call) and isinstance(c.func, ast.Attribute)
+                and c.func.attr == 'update' and isinstance(c.func.value, ast.Name)} | \
+            {t.id for a_ in ast.walk(lp) if isinstance(a_, ast.Assign) and isinstance(a_.value, (ast.Dict, ast.DictComp)) for t in a_.targets
+             if isinstance(t, ast.Name)}
+        if not maps:
+            continue
+        n4 += 1
+        inside = [c for c in ast.walk(lp) if isinstance(c, ast.Call) and X.call_name_of(c) == 'SubstituteExpressions' and c.args
+                  and ast.unparse(c.args[0]) in maps]
+        inst = f'do_loop_fusion:rename-map:{sorted(maps)[0]}'
+        if inside:
+            ctx.violation('R4', 'do_loop_fusion:sequential-renaming', f'{lf.module.relpath}:{inside[0].lineno}',
+                          f'`{ast.unparse(inside[0])}` is applied inside the loop over the nesting levels: the variables of a nest are renamed '
+                          f'one after the other, so a name introduced by an earlier level is renamed again by a later one '
+                          f'(first nest i/j, later nest j/i: c(j,i) becomes c(j,j))', instance=inst)
+        else:
+            after = [c for c in ast.walk(lf.node) if isinstance(c, ast.Call) and X.call_name_of(c) == 'SubstituteExpressions' and c.args
+                     and ast.unparse(c.args[0]) in maps and c.lineno > (lp.end_lineno or lp.lineno)]
+            (ctx.judge('R4', inst, facts={'applied_at_line': after[0].lineno}) if after else
+             ctx.violation('R4', 'do_loop_fusion:renaming-not-applied', f'{lf.module.relpath}:{lp.lineno}',
+                           'the renaming map of the loop variables is never applied to the body', instance=inst))
+    ctx.floor('R4', 'loop-variable renaming maps in do_loop_fusion', n4, 1)
+
 
 MUTANTS = [
+    Mutant('fusion-renames-level-by-level', TL,
+           "                var_map = {}\n                for loop_variable, fusion_variable in zip(variables, fusion_variables):\n                    if loop_variable != fusion_variable:\n                        var_map.update({var: fusion_variable for var in FindVariables().visit(body)\n                                        if var.name.lower() == loop_variable.name})\n                if var_map:\n                    body = SubstituteExpressions(var_map).visit(body)\n",
+           "                for loop_variable, fusion_variable in zip(variables, fusion_variables):\n                    if loop_variable != fusion_variable:\n                        var_map = {var: fusion_variable for var in FindVariables().visit(body)\n                                   if var.name.lower() == loop_variable.name}\n                        body = SubstituteExpressions(var_map).visit(body)\n",
+           expect=('R4', 'sequential-renaming')),
     Mutant('unroller-drops-step', TL, "            unroll_range = get_pyrange(LoopRange((start, stop, step)))", "            unroll_range = get_pyrange(LoopRange((start, stop)))",
            expect=('R1', 'visit_Loop:range'), quick=True),
     Mutant('pyrange-descending-branch-removed', SYM,
